@@ -796,6 +796,9 @@ add("C15", "benign: helper generator prunes through an explicit set difference v
     "        if k not in generator.ALL_JSON_PATH_PARTS - TrinoGenerator.SUPPORTED_JSON_PATH_PARTS\n",
     "        if k not in (generator.ALL_JSON_PATH_PARTS - TrinoGenerator.SUPPORTED_JSON_PATH_PARTS)\n", "silent", 0)
 
+add("C20", "benign: heap tie-breaker taken from a counter", "sqlglot/diff.py",
+    "                                len(candidate_matchings),\n                                source_leaf,\n", "                                next(tie_breaker),\n                                source_leaf,\n", "silent",
+    extra=[("sqlglot/diff.py", "        candidate_matchings: list[tuple[float, int, int, exp.Expr, exp.Expr]] = []\n", "        candidate_matchings: list[tuple[float, int, int, exp.Expr, exp.Expr]] = []\n        tie_breaker = iter(range(1 << 62))\n")])
 add("C20", "candidate heap entries lose their insertion counter", "sqlglot/diff.py",
     "                                len(candidate_matchings),\n                                source_leaf,\n", "                                source_leaf,\n", "C20.g",
     extra=[("sqlglot/diff.py", "candidate_matchings: list[tuple[float, int, int, exp.Expr, exp.Expr]] = []", "candidate_matchings: list[tuple[float, int, exp.Expr, exp.Expr]] = []"),
@@ -858,6 +861,8 @@ add("C04", "benign: escaped text bound to a local before it is quoted", "sqlglot
     "            return f\"EXEC sp_rename '{old_name}', '{self.escape_str(action.this.name)}'\"",
     "            new_name = self.escape_str(action.this.name)\n            return f\"EXEC sp_rename '{old_name}', '{new_name}'\"", "silent", 0)
 
+add("C04", "benign: qualify elimination always quotes the rebuilt projection", "sqlglot/transforms.py",
+    'exp.column(alias_or_name, quoted=identifier.args.get("quoted"))', 'exp.column(alias_or_name, quoted=True)', "silent")
 add("C04", "qualify elimination rebuilds the projection without its quoted flag", "sqlglot/transforms.py",
     'exp.column(alias_or_name, quoted=identifier.args.get("quoted"))', 'exp.column(alias_or_name)', "C04.R10")
 add("C04", "safe bare words may contain a dollar sign", "sqlglot/expressions/core.py",
@@ -922,6 +927,9 @@ add("C05", "revert: Teradata converts the operand of a negation it has not teste
 add("C05", "benign: DuckDB array position guard split into two early exits", "sqlglot/generators/duckdb.py",
     "    if not position or not position.is_int:\n        self.unsupported(\"ARRAY_INSERT can only be transpiled with a literal position\")\n        return self.func(\"ARRAY_INSERT\", this, position, element)\n",
     "    if not position:\n        return self.func(\"ARRAY_INSERT\", this, position, element)\n    if not position.is_int:\n        self.unsupported(\"ARRAY_INSERT can only be transpiled with a literal position\")\n        return self.func(\"ARRAY_INSERT\", this, position, element)\n", "silent")
+add("C05", "benign: connector function builds its result under a test of the argument list", "sqlglot/parser.py",
+    "            self.raise_error(\"Expected at least one argument\")\n            return exp.Paren()\n\n        # Wrapped so the connector keeps its precedence in the parent context\n        return exp.Paren(this=connector(*args, copy=False))\n",
+    "            self.raise_error(\"Expected at least one argument\")\n\n        # Wrapped so the connector keeps its precedence in the parent context\n        return exp.Paren(this=connector(*args, copy=False)) if args else exp.Paren()\n", "silent")
 add("C05", "revert: DEFAULT <property> dispatch outside the TypeError conversion", "sqlglot/parser.py",
     "                try:\n                    return self.PROPERTY_PARSERS[self._prev.text.upper()](self, default=True)\n                except TypeError:\n                    self.raise_error(f\"Cannot parse property '{self._prev.text}'\")\n",
     "                return self.PROPERTY_PARSERS[self._prev.text.upper()](self, default=True)\n", "C05.q")
@@ -983,6 +991,9 @@ add("C10", "pseudo-column exclusion applied regardless of the dialect setting", 
 add("C01", "generator stops consulting a dialect-overridden setting", G,
     "        if not self.LOCKING_READS_SUPPORTED:\n            self.unsupported(\"Locking reads using 'FOR UPDATE/SHARE' are not supported\")\n            return \"\"\n", "", "C01.d")
 
+add("C10", "benign: default db marked through a differently named local", "sqlglot/optimizer/qualify_tables.py",
+    "        db = exp.parse_identifier(db, dialect=dialect)\n        db.meta[\"is_table\"] = True\n        db = normalize_identifiers(db, dialect=dialect)\n",
+    "        db_ident = exp.parse_identifier(db, dialect=dialect)\n        db_ident.meta[\"is_table\"] = True\n        db = normalize_identifiers(db_ident, dialect=dialect)\n", "silent")
 add("C10", "default db normalised without the table mark", "sqlglot/optimizer/qualify_tables.py",
     "        db = exp.parse_identifier(db, dialect=dialect)\n        db.meta[\"is_table\"] = True\n        db = normalize_identifiers(db, dialect=dialect)\n",
     "        db = normalize_identifiers(exp.parse_identifier(db, dialect=dialect), dialect=dialect)\n", "C10.g")
@@ -1030,6 +1041,9 @@ add("C13", "revert: heredoc-tag rewind keeps the advanced line", "sqlglot/tokeni
 add("C13", "revert: command text token keeps the nested scan's start", "sqlglot/tokenizer_core.py",
     "                self._start = start + len(raw) - len(raw.lstrip())\n", "", "C13.j")
 
+add("C13", "benign: merged field name states its whole span in one call", "sqlglot/parser.py",
+    "            number = field\n            field = exp.Identifier(this=name, quoted=True).update_positions(number)\n            if last and \"start\" in number.meta:\n                field.update_positions(\n                    line=last.line, col=last.col, start=number.meta[\"start\"], end=last.end\n                )\n",
+    "            number = field\n            end = last or self._prev\n            field = exp.Identifier(this=name, quoted=True).update_positions(\n                line=end.line, col=end.col, start=number.meta.get(\"start\"), end=end.end\n            )\n", "silent")
 add("C13", "revert: dashed BigQuery name keeps the span of its first fragment", "sqlglot/parsers/bigquery.py",
     "            if last and \"start\" in first.meta:\n                # The merged name ends where its last fragment ends\n                this.update_positions(\n                    line=last.line, col=last.col, start=first.meta[\"start\"], end=last.end\n                )\n", "", "C13.m")
 add("C13", "Athena parse_into drops the source text on the Trino branch", "sqlglot/parsers/athena.py",
